@@ -188,7 +188,8 @@ def runFrom {P : Type} (E : Env P) (data : Bytes) : List Op → Regs P → Outco
 /-- run a wrapper body on a datagram -/
 def run {P : Type} (E : Env P) (prog : List Op) (data : Bytes) : Outcome P := runFrom E data prog {}
 
-/-! ### reference programs (what the wrappers are today; Gen.lean is compared with these by `decide`) -/
+/-! ### reference programs (what the wrappers are today; documentation and examples only — the theorems quantify
+     over every program that passes the static guard of Guard.lean, and Gen.lean's programs are shown to pass it) -/
 
 def refSigned : List Op := [.unpackAuth 23, .verify, .decode .remainder 23, .assertValid, .lookupPeer, .callPeer]
 def refSignedWd : List Op :=
@@ -196,7 +197,7 @@ def refSignedWd : List Op :=
 def refUnsigned : List Op := [.decode .data 23, .callAddr]
 def refEzUnpackAuth : List Op := [.unpackAuth 23, .verify, .decode .remainder 23, .assertValid, .returnAuth]
 
-/-- what `_verify_signature` is today (Gen.verifySignature is proved equal to this) -/
+/-- what `_verify_signature` must be (Gen.verifySignature is proved equal to this by `rfl`) -/
 def refVerifySignature (S : Scheme) (keyBin data : Bytes) : Option (Bool × Bytes) :=
   match S.parse keyBin with
   | none => none
@@ -261,7 +262,7 @@ def refProgs : Progs :=
 
 inductive Dispatch (P : Type)
   | droppedPrefix
-  | droppedShort            -- `data[22]` raises IndexError (22-byte datagram that equals the prefix); C03's business
+  | droppedShort            -- no msg-id byte: `len(data) < 23` returns (before C03's repair: IndexError on data[22])
   | noHandler
   | handler (h : Handler) (o : Outcome P)
   | other (h : Handler)     -- deprecated / cell handlers: not modelled further here
